@@ -1576,6 +1576,12 @@ def _lnorm(x, ord=None, dim=None, keepdim=False, **kw):
     return x.norm(2 if ord is None else ord, dim, keepdim)
 
 
+@implements(torch.linalg.vecdot)
+def _vecdot(x, y, dim=-1):
+    a, b = np.broadcast_arrays(to_obj(x), to_obj(y))
+    return SymTensor(np.sum(a * b, axis=dim))
+
+
 @implements(torch.diag_embed)
 def _diag_embed(x, offset=0, dim1=-2, dim2=-1):
     a = to_obj(x)
